@@ -1446,3 +1446,71 @@ Proof.
   - apply Forall_forall. intros s I m r e q. rewrite forallb_forall in H2. rewrite (steps_as_modelled_sound _ (H2 s I)).
     apply modelled_steps_run.
 Qed.
+
+(* EVERY safe step order - not only the one the code has today - keeps the authority's credential variables from the child: a
+   credential variable in the child's environment was put there by the call's own env *)
+Lemma getenv_In e k v : getenv e k = Some v -> In (k, v) e.
+Proof.
+  induction e as [|[n x] e IH]; cbn [getenv]; [discriminate|]. destruct (str_eqb n k) eqn:E.
+  - intros H. injection H as ->. apply str_eqb_eq in E. subst n. left. reflexivity.
+  - intros H. right. apply IH. exact H.
+Qed.
+Definition only_from_call (r : registry) (q : spawn_req) (c : cmd) : Prop :=
+  forall k v, In k (stripped_names r) -> getenv (cm_env c) k = Some v -> In (k, v) (req_env q).
+Definition stripped_for (sc sn : bool) (q : spawn_req) : bool := match sp_cwd q with Some _ => sc | None => sn end.
+Lemma strip_cmd_only_from_call r q c : only_from_call r q (strip_cmd r c).
+Proof.
+  intros k v I H. unfold strip_cmd in H. rewrite cm_env_fold_remove in H.
+  rewrite (getenv_filter_out (fun n => negb (existsb (str_eqb n) (stripped_names r)))) in H; [discriminate|].
+  apply negb_false_iff. apply existsb_exists. exists k. split; [exact I | apply str_eqb_refl].
+Qed.
+Lemma own_env_only_from_call r q c : only_from_call r q c -> only_from_call r q (fold_left cmd_env_set (req_env q) c).
+Proof.
+  intros H k v I G. rewrite cm_env_fold_set, getenv_fold_set in G.
+  destruct (getenv (rev (req_env q)) k) as [x|] eqn:E.
+  - injection G as ->. apply getenv_In in E. apply in_rev. exact E.
+  - apply (H k v I G).
+Qed.
+Lemma own_env_keeps_env_otherwise c ov : cm_dir (fold_left cmd_env_set ov c) = cm_dir c.
+Proof. revert c. induction ov as [|kv ov IH]; intros c; cbn [fold_left]; [reflexivity|]. rewrite IH. reflexivity. Qed.
+Lemma safe_steps_run p : forall sc sn m r q c0 c,
+  steps_safe_from sc sn p = true ->
+  (stripped_for sc sn q = true -> only_from_call r q c0) ->
+  run_steps p m r q c0 = Some c -> only_from_call r q c.
+Proof.
+  induction p as [|st p IH]; intros sc sn m r q c0 c S Inv R; [discriminate|].
+  destruct st; cbn [run_steps steps_safe_from] in R, S.
+  - (* SCwd *) destruct (sp_cwd q) as [raw|] eqn:CW.
+    + destruct (cwd_refused raw); [discriminate|]. eapply (IH sc sn m r q _ c S); [|exact R].
+      intros T. unfold stripped_for in T, Inv. rewrite CW in T, Inv. exact (Inv T).
+    + eapply (IH sc sn m r q _ c S); [|exact R].
+      intros T. unfold stripped_for in T, Inv. rewrite CW in T, Inv. exact (Inv T).
+  - (* SStrip *) eapply (IH true true m r q _ c S); [|exact R]. intros _. apply strip_cmd_only_from_call.
+  - (* SStripIfNoCwd *) eapply (IH sc true m r q _ c S); [|exact R]. unfold stripped_for in *.
+    destruct (sp_cwd q); [exact Inv | intros _; apply strip_cmd_only_from_call].
+  - (* SStripIfCwd *) eapply (IH true sn m r q _ c S); [|exact R]. unfold stripped_for in *.
+    destruct (sp_cwd q); [intros _; apply strip_cmd_only_from_call | exact Inv].
+  - (* SStripCond *) eapply (IH sc sn m r q _ c S Inv R).
+  - (* SOwnEnv *) eapply (IH sc sn m r q _ c S); [|exact R]. intros T. apply own_env_only_from_call. exact (Inv T).
+  - (* SSpawn *) apply andb_true_iff in S. destruct S as [S1 S2]. subst sc sn.
+    assert (E : c = c0).
+    { destruct (sp_cwd q); [destruct (sp_dir_exists q || negb m); [|discriminate]|]; injection R as <-; reflexivity. }
+    subst c. apply Inv. unfold stripped_for. destruct (sp_cwd q); reflexivity.
+Qed.
+Theorem any_safe_step_order_strips : forall (p : list sstep) (m : bool) (r : registry) (e : env) (q : spawn_req) (c : cmd) (k v : str),
+  steps_safe p = true ->
+  run_steps p m r q (cmd_new e) = Some c ->
+  In k (stripped_names r) -> getenv (cm_env c) k = Some v -> In (k, v) (req_env q).
+Proof.
+  intros p m r e q c k v S R I G. unfold steps_safe in S.
+  refine (safe_steps_run p false false m r q (cmd_new e) c S _ R k v I G).
+  unfold stripped_for. destruct (sp_cwd q); discriminate.
+Qed.
+Lemma step_orders_safe_or_not :
+  steps_safe modelled_steps = true
+  /\ steps_safe [SCwd; SStripIfNoCwd; SOwnEnv; SSpawn] = false          (* seeded C19-8 *)
+  /\ steps_safe [SCwd; SOwnEnv; SStripCond; SSpawn] = false             (* removal only when the call brings no env *)
+  /\ steps_safe [SCwd; SOwnEnv; SSpawn] = false
+  /\ steps_safe [SCwd; SStripIfCwd; SStripIfNoCwd; SOwnEnv; SSpawn] = true   (* a loop in each branch would do *)
+  /\ steps_safe [SOwnEnv; SStrip; SCwd; SSpawn] = true.
+Proof. vm_compute. repeat split; reflexivity. Qed.
